@@ -137,12 +137,67 @@ def gen_real_case(r):
     return Case(L)
 
 
+def gen_late_copy_case(r):
+    """family C: a REAL participant P1 of the observer's domain whose first announcement is held (so that a copy of a genuine
+    announcement with its GUID can be delivered at any later time, as a delayed / duplicated datagram or a restarting device
+    with a fixed GUID would): P0 and P1 discover each other, then a random order of ignore / delete (the dispose reaches P0) /
+    silence / time, and late copies of P1's announcement in between and afterwards; every list is read after every step"""
+    L = []
+    interval = r.choice([5 * SEC, 2 * SEC, 5 * SEC])
+    if interval != 5 * SEC:
+        L.append(f"config announce={interval}")
+    L.append("participant P0")
+    third = r.chance(1, 3)
+    L.append("hold DATA from=1 times=1")
+    L.append("participant P1")
+    if third:
+        L.append("participant P2")
+    L.append(f"advance {interval + r.choice([0, 1, SEC])}")     # P0's next periodic announcement makes P1 answer
+    obs = ["discovered P0 participants"] + (["discovered P2 participants"] if third else [])
+    L += obs + ["discovered P1 participants"]
+    p1_alive = True
+    steps = r.shuffle(["ignore", "delete", "late", "late", "advance", "ignore2" if third else "advance"])
+    if r.chance(3, 4):
+        # the order of the seeded defect first: ignore, dispose, late copy
+        steps = ["ignore", "delete", "late"] + r.shuffle(["advance", "late", "ignore2" if third else "late"])
+    for st in steps:
+        if st == "ignore":
+            L.append("ignore P0 P1")
+        elif st == "ignore2":
+            L.append("ignore P2 P1")
+        elif st == "delete" and p1_alive:
+            if r.chance(1, 5):
+                L.append("drop-if from=P1")          # silent instead of disposed
+            else:
+                L.append("delete P1")
+                p1_alive = False
+        elif st == "late":
+            to = "P2" if third and r.chance(1, 3) else "P0"
+            lease = r.choice([None, None, 3 * SEC, 100 * SEC])
+            L.append(f"spdp-forge 1 {to}" + (f" lease={lease}" if lease else ""))
+        elif st == "advance":
+            L.append(f"advance {r.choice([1, SEC, interval, 2 * interval + 1])}")
+        L += obs
+    L.append(f"advance {r.choice([SEC, 2 * interval])}")
+    L += obs
+    return Case(L)
+
+
 def gen_case(r, tier):
-    return gen_forge_case(r) if r.chance(1, 2) else gen_real_case(r)
+    c = r.below(10)
+    if c < 4:
+        return gen_forge_case(r)
+    if c < 8:
+        return gen_real_case(r)
+    return gen_late_copy_case(r)
 
 
 FORGE_HEAD = ["config announce=1000000000000", "participant P0", "hold DATA from=1 times=1", "participant S domain=2"]
 CORPUS = [
+    # seeded change C17_d: ignore P1, P1 is deleted (its dispose reaches P0), then a late copy of P1's announcement arrives: never listed again
+    ["participant P0", "hold DATA from=1 times=1", "participant P1", f"advance {5 * SEC}", "discovered P0 participants", "ignore P0 P1",
+     "discovered P0 participants", "delete P1", "discovered P0 participants", "spdp-forge 1 P0", "discovered P0 participants",
+     f"advance {6 * SEC}", "spdp-forge 1 P0", "discovered P0 participants"],
     # exact lease boundary of a forged participant: present at lastSeen + lease, gone 1 ns later
     FORGE_HEAD + [f"spdp-forge 1 P0 id=5 lease={2 * SEC}", "discovered P0 participants", f"advance {2 * SEC}", "discovered P0 participants",
                   "advance 1", "discovered P0 participants"],
